@@ -1,5 +1,12 @@
 """Shared driver for C06 (commit) and C07 (read-your-writes): one model, one replay;
-each property reports its own failures and known findings."""
+each property reports its own failures and known findings.
+Histories are explored THROUGH the two deviations that concern one of the properties only
+(CONSTRAINT Explorable): D_RemoveRemote is about the view (CommitExactRR / FaultReportedRR hold
+through it), D_OrderLost is about Commit (ViewEqIdealOL holds through it); so "remove, remove
+recursively, commit" and "write, remove recursively, write again, read" are compared too.
+Besides the two-level model: a deep SPINE (a, a/b, a/b/a, a/b/b; <= 4 operations, every
+transition replayed) and a second instantiation of the names (sub / sub.old: one a string
+prefix of the other) for every Commit transition and a quarter of the others."""
 import os, json
 import vlib
 
@@ -19,6 +26,20 @@ def run_cache(ctx, prop):
     m = vlib.run_sharded(ctx, lambda p: ['cachecases', '--in', p], shards)
     merged = [m]
     ctx.cov['replay'].append(dict(what='transitions of the exhaustive model', model_transitions=total, executed=m['executed'], failures=m['failures_by_key']))
+    # ---- a deep spine (three levels, <=4 ops): every transition, names instantiated plainly and as prefix-related names
+    rsp = ctx.tlc_must_pass('cache', 'Cache', 'MC_Cache_spine.cfg', workers=8, timeout=1800, name='Cache: spine a, a/b, a/b/a, a/b/b, <=4 ops, 1 commit (emits cases)')
+    shards_s, total_s, taken_s = vlib.shard_lines(ctx, rsp['out'], NPROC, marker='\\"k\\":\\"cache\\"')
+    ms = vlib.run_sharded(ctx, lambda p: ['cachecases', '--in', p] + (['--naming', 'prefix'] if int(p.rsplit('_', 1)[1].split('.')[0]) % 2 else []), shards_s)
+    merged.append(ms)
+    ctx.cov['replay'].append(dict(what='transitions of the spine model (three levels)', model_transitions=total_s, executed=ms['executed'], failures=ms['failures_by_key']))
+    # prefix-related names for the two-level model as well
+    # (every transition that is a Commit -- there the remote is compared -- and every fourth of the others)
+    all_lines = [l for l in r['out'].splitlines(True) if '\\"k\\":\\"cache\\"' in l]
+    commit_text = ''.join(l for i, l in enumerate(all_lines) if '\\"name\\":\\"commit\\"' in l or i % 4 == ctx.seed % 4)
+    shards_p, total_p, taken_p = vlib.shard_lines(ctx, commit_text, NPROC, marker='\\"k\\":\\"cache\\"')
+    mp = vlib.run_sharded(ctx, lambda p: ['cachecases', '--in', p, '--naming', 'prefix'], shards_p)
+    merged.append(mp)
+    ctx.cov['replay'].append(dict(what='transitions of the exhaustive model, names sub / sub.old', executed=mp['executed'], failures=mp['failures_by_key']))
     # ---- deep random behaviours of the model (7 ops, 3 commits, faults), one case per step
     rs = ctx.tlc('cache', 'Cache', 'MC_Cache_sim.cfg', workers=1, timeout=900, simulate='num=%d' % (600 if q else 12000),
                  extra=['-depth', '14', '-seed', str(ctx.seed)], name='Cache: simulated deep behaviours')
